@@ -51,7 +51,7 @@ func errAlt(syms ...Sym) SAlt { return SAlt{Err: true, Body: syms} }
 var Families = []string{"expr", "list", "stmts", "brackets", "random", "lr1notlalr", "nullable", "long", "random", "random", "nulllist", "nulllist", "nulltails", "lr2", "wide", "firstchain", "errorder", "optafter", "errdeep", "deadnt", "lafirst"}
 
 // BoundaryFamilies are shapes near the LR(1) boundary (used on top of Families by C04).
-var BoundaryFamilies = []string{"lr1notlalr", "cyclic", "rr1la", "nullconflict", "nullable", "random", "expr", "nulltails", "nulllist", "lr2", "lafirst", "lafirst"}
+var BoundaryFamilies = []string{"lr1notlalr", "cyclic", "rr1la", "nullconflict", "nullable", "random", "expr", "nulltails", "nulllist", "lr2", "lafirst", "lafirst", "splitrr"}
 
 // GenSyntax builds a random syntax part (no actions, no lexical part).
 func GenSyntax(r *rand.Rand, o SynGenOpts) *Grammar {
@@ -96,6 +96,8 @@ func GenSyntax(r *rand.Rand, o SynGenOpts) *Grammar {
 		g = s.laFirst()
 	case "manyterms":
 		g = s.manyTerms()
+	case "splitrr":
+		g = s.splitRR()
 	case "wide":
 		g = s.wide()
 	case "cyclic":
@@ -413,6 +415,38 @@ func splitHeads(r *rand.Rand, g *Grammar) {
 		}
 		g.NTs = append(g.NTs[:at:at], append([]*NTDef{tail}, g.NTs[at:]...)...)
 	}
+}
+
+// splitRR: a reduce/reduce conflict between a production of the second block of a head that is
+// defined in two places and a production declared between the two blocks: "earliest declared"
+// is decided by the text, not by how productions are grouped.
+func (s *synGen) splitRR() *Grammar {
+	s.pickTerminals(6)
+	t := s.terms
+	shared := []Sym{t[1]}
+	if s.r.Intn(3) == 0 {
+		shared = []Sym{t[1], t[4]}
+	}
+	top := &NTDef{Head: "S", Alts: []SAlt{alt(nt("A"), t[2], t[2]), alt(nt("B"), t[2], t[3])}}
+	if s.r.Intn(2) == 0 {
+		top.Alts[0], top.Alts[1] = top.Alts[1], top.Alts[0]
+	}
+	a1 := &NTDef{Head: "A", Alts: []SAlt{alt(t[0])}}
+	b := &NTDef{Head: "B", Alts: []SAlt{alt(shared...)}}
+	a2 := &NTDef{Head: "A", Alts: []SAlt{alt(shared...)}}
+	if s.r.Intn(3) == 0 {
+		b.Alts = append([]SAlt{alt(t[5])}, b.Alts...)
+	}
+	if s.r.Intn(3) == 0 {
+		a2.Alts = append(a2.Alts, alt(t[5], t[0]))
+	}
+	g := &Grammar{NTs: []*NTDef{top, a1, b, a2}}
+	if s.r.Intn(3) == 0 {
+		// a third head between the blocks as well
+		g.NTs = []*NTDef{top, a1, {Head: "C", Alts: []SAlt{alt(t[4], t[4])}}, b, a2}
+		top.Alts = append(top.Alts, alt(nt("C")))
+	}
+	return g
 }
 
 // manyTerms: more than 256 terminals (token types beyond one byte), otherwise trivial.
